@@ -167,3 +167,15 @@ func init() {
 		return n
 	}
 }
+
+// gorilla/websocket.Conn: sockets are outside every claim; the methods the
+// hub and connections call are no-ops that succeed (also on a nil receiver).
+func init() {
+	ok := func(fr *frame, a []value) value { return iface{} }
+	for _, m := range []string{"Close", "WriteMessage", "SetWriteDeadline", "SetReadDeadline", "WriteControl", "WriteJSON"} {
+		externals["(*github.com/gorilla/websocket.Conn).Close"] = ok
+		externals["(*github.com/gorilla/websocket.Conn)."+m] = ok
+	}
+	externals["(*github.com/gorilla/websocket.Conn).SetReadLimit"] = nop
+	externals["(*github.com/gorilla/websocket.Conn).SetPongHandler"] = nop
+}
